@@ -50,21 +50,37 @@ def gen_cases(seed: int, n: int, *, nphases=4, watch_p=0.0, features=None, nwork
     return cases
 
 
-def shape_cases(names=None, seeds=(0, 1, 2), cfgs=None) -> list[dict]:
+def shape_cases(names=None, seeds=(0, 1, 2), cfgs=None, slow_variants=True) -> list[dict]:
     cases = []
+    cfgs = cfgs or [{"njob": 2, "resources": "gpu:2"}]
+
+    def history(proj, cfg, s, delay):
+        phases = [dict(initial_phase(proj, cfg=cfg, seed=s), delay=delay)]
+        # second phase: switch every versioned source to its second version, one at a time
+        for path, vers in proj["sources"].items():
+            if len(vers) > 1:
+                phases.append({"edits": [["set", path, vers[1]]] + proj.get("env_edits", []), "how": "restart",
+                               "cfg": cfg, "seed": s + 10, "delay": delay})
+            for v in vers[2:]:
+                phases.append({"edits": [["set", path, v]], "how": "restart", "cfg": cfg, "seed": s + 15, "delay": delay})
+        phases.append({"edits": [], "how": "restart", "cfg": cfg, "seed": s + 20, "delay": delay})
+        return phases
+
     for name, fn in SHAPES.items():
         if names and name not in names:
             continue
         proj = fn()
-        for s in seeds:
-            cfg = (cfgs or [{"njob": 2, "resources": "gpu:2"}])[s % len(cfgs or [1])]
-            phases = [initial_phase(proj, cfg=cfg, seed=s)]
-            # second phase: switch every versioned source to its second version, one at a time
-            for path, vers in proj["sources"].items():
-                if len(vers) > 1:
-                    phases.append({"edits": [["set", path, vers[1]]], "how": "restart", "cfg": cfg, "seed": s + 10})
-            phases.append({"edits": [], "how": "restart", "cfg": cfg, "seed": s + 20})
-            cases.append({"tid": f"shape-{name}-{s}", "project": proj, "phases": phases})
+        for k, s in enumerate(seeds):
+            cfg = cfgs[k % len(cfgs)]
+            cases.append({"tid": f"shape-{name}-{s}", "project": proj, "phases": history(proj, cfg, s, [])})
+        if slow_variants:
+            # "this step is slow" schedules: the operations of one command are released only when
+            # nothing else can move (delay-rank schedules)
+            labels = [c for c in proj["scripts"]]
+            for j, lab in enumerate(labels):
+                cfg = dict(cfgs[j % len(cfgs)], njob=3, keep_going=True)
+                cases.append({"tid": f"shape-{name}-slow{j}", "project": proj,
+                              "phases": history(proj, cfg, seeds[0] + j, [f"op:{lab}:", f"exit:{lab}"])})
     return cases
 
 
@@ -121,7 +137,12 @@ PATTERNS = ["*.txt", "d/*.txt", "?.txt", "${*n}.txt", "d/**"]
 
 
 def random_decl(rng, k: int) -> list:
-    kind = rng.choice(["static", "static", "tree", "glob", "step", "step", "step", "step", "amend"])
+    kind = rng.choice(["static", "static", "tree", "glob", "step", "step", "step", "step", "amend",
+                       "sdecl", "sdecl"])
+    if kind == "sdecl":
+        return ["sdecl", sorted(rng.sample(TREES, rng.choice([0, 1, 1]))),
+                sorted(rng.sample(PATHS, rng.choice([0, 1, 2]))),
+                sorted(rng.sample(PATTERNS, rng.choice([0, 1, 2])))]
     if kind == "static":
         return ["static", sorted(rng.sample(PATHS, rng.choice([1, 1, 2])))]
     if kind == "tree":
